@@ -35,9 +35,11 @@ CODES = {
     114: 'InsertPoints of one point whose id is already stored in the target shard: the range is not reported failed',
     115: 'InsertPoints of one point whose id is already stored in the target shard: the collection total moved',
     116: 'the total reported by the shards differs from the number of sent points that can be found',
+    117: 'after an accepted InsertPoints on a live node a shard does not hold a contiguous range of the id-sorted batch, or a point of the batch is stored in no shard / in two',
     121: 'CreateCollection: answer differs from (exists -> AlreadyExists; else count >= MaxCollections -> QuotaReached; else created)',
     122: 'CreateCollection: number of collections after the request is wrong (refusal with side effect, or creation not visible)',
     131: 'a shard holds more points than MaxShardPointCount after an insert',
+    202: 'after an accepted InsertPoints on a live node the positions of the id-sorted batch a shard holds differ from the ranges the model distribute assigns to it',
     201: 'distributePoints: observed assignment / number of created shards differs from the model distribute',
 }
 
@@ -62,3 +64,4 @@ CFG['rule'] = CFG['rule'] + ' ' + 'CDupInsert: an insert of one point whose id i
 CFG['rule'] = CFG['rule'] + ' ' + "The node's shard-manager root differs from the node root."
 
 CFG['rule'] = CFG['rule'] + ' ' + 'One create request in three carries a different plan (MaxCollections 0, 1, or the current number of collections -2 .. +1).'
+CFG['rule'] = CFG['rule'] + ' ' + 'CLive: after every accepted live insert without failed ranges (batches in random, i.e. unsorted, id order) every shard of the collection is asked directly which points of the batch it holds; their positions in the id-sorted batch are judged by live_ranges_b (proved sound: c15_live_checker_sound) and compared with the ranges of the model run on the fill levels read before the request.'
